@@ -14,7 +14,7 @@
    and the specification oracle (alpha-equivalence of decoded input and output). *)
 From OxiVerif Require Import Base.Common Spec.Adam7 Spec.Sem Model.Types Model.Options Model.Color Model.Palette Model.Reductions Model.Evaluate Model.Optimize
   Proofs.Bridge Proofs.PixelProofs Proofs.ImageLift Proofs.LiftColor Proofs.LiftAlpha Proofs.PipelineLossless
-  Spec.Decode Spec.DecodeFile Model.Filters Model.Headers Model.PngData Proofs.AlphaLine Proofs.AlphaStream Proofs.EmittedStream Proofs.OutputDecode Proofs.FileToFile.
+  Spec.Decode Spec.DecodeFile Model.Filters Model.Headers Model.PngData Proofs.AlphaLine Proofs.AlphaStream Proofs.EmittedStream Proofs.OutputDecode Proofs.FileToFile Proofs.ContainerOk.
 
 Theorem C03_partial_transparent_rgba : forall d r g b r' g' b',
   match color_of_samples SRGBA d [r; g; b; 0], color_of_samples SRGBA d [r'; g'; b'; 0] with
@@ -151,3 +151,21 @@ Theorem C03_file_to_file_partial : forall e o (inflate : list Z -> option (list 
     (container_ok p' -> exists pic', spec_decode_png inflate (output p') = Some pic' /\ pic_aequiv pic pic').
 Proof. exact optimize_from_memory_alpha_partial. Qed.
 Print Assumptions C03_file_to_file_partial.
+
+(* THE FULL STATEMENT of C03 on the model, container conditions derived from the input *)
+Theorem C03_file_to_file : forall e o (inflate : list Z -> option (list Z)) bytes out pic nm ih rest M,
+  scale_16 o = false ->
+  bytes_ok bytes -> lenZ bytes + 5 <= M -> M + 4 < 2 ^ 31 -> (forall d s, lenZ (z_deflate e d s) <= M) ->
+  spec_parse_png bytes = Some ((nm, ih) :: rest) ->
+  spec_decode_chunks inflate ((nm, ih) :: rest) = Some pic ->
+  List.filter (named spec_IHDR) rest = [] ->
+  (length (List.filter (named spec_PLTE) rest) <= 1)%nat -> (length (List.filter (named spec_tRNS) rest) <= 1)%nat ->
+  (forall x n y, z_inflate e x n = Ok y -> inflate x = Some y /\ bytes_ok y) ->
+  (forall d s, inflate (z_deflate e d s) = Some s) ->
+  (forall p, from_slice e bytes o = Ok p ->
+     spec_raw_size (width (hdr (raw p))) (height (hdr (raw p))) (bpp (hdr (raw p))) (interlaced (hdr (raw p))) true <= usize_max /\
+     wf_ctype (ctype (hdr (raw p))) (depth (hdr (raw p)))) ->
+  optimize_from_memory e o bytes = Ok out ->
+  exists pic', spec_decode_png inflate out = Some pic' /\ pic_aequiv pic pic'.
+Proof. exact optimize_from_memory_alpha. Qed.
+Print Assumptions C03_file_to_file.
